@@ -573,6 +573,9 @@ class FixedWidthBinning(BinningBase):
             if np.size(values) == 0:
                 return None
             min_, max_ = np.min(values), np.max(values)
+            if not (np.isfinite(min_) and np.isfinite(max_)):
+                # (refused before the first growth: no grid index exists for it)
+                raise ValueError("Adaptive bins cannot grow to include infinite values.")
             result = self._force_bin_existence_single(min_)
             result2 = self._force_bin_existence_single(
                 max_, includes_right_edge=includes_right_edge
